@@ -7,6 +7,7 @@ import (
 	"encoding/binary"
 	"fmt"
 	"math"
+	"sync"
 
 	hdf5 "github.com/scigolib/hdf5"
 	"github.com/scigolib/hdf5/internal/core"
@@ -218,15 +219,8 @@ func (d DSpec) Create(fw *hdf5.FileWriter, path string) (*hdf5.DatasetWriter, er
 		opts = append(opts, hdf5.WithMaxDims(d.MaxDims))
 	}
 	for _, f := range d.Filters {
-		switch {
-		case len(f) > 5 && f[:5] == "gzip:":
-			lvl := 6
-			fmt.Sscanf(f[5:], "%d", &lvl)
-			opts = append(opts, hdf5.WithGZIPCompression(lvl))
-		case f == "shuffle":
-			opts = append(opts, hdf5.WithShuffle())
-		case f == "fletcher":
-			opts = append(opts, hdf5.WithFletcher32())
+		if o := filterOption(f); o != nil {
+			opts = append(opts, o)
 		}
 	}
 	if kind == "cmp" {
@@ -238,6 +232,37 @@ func (d DSpec) Create(fw *hdf5.FileWriter, path string) (*hdf5.DatasetWriter, er
 	}
 	return fw.CreateDataset(path, dt, d.Dims, opts...)
 }
+
+// filterOption returns the option value for a filter spec. Values are created once per process and reused for every dataset
+// and file that asks for the same filter, the way callers keep a "profile" of options: an option value is a description of
+// what to configure and must not accumulate state from the datasets it was applied to.
+func filterOption(f string) hdf5.DatasetOption {
+	optMu.Lock()
+	defer optMu.Unlock()
+	if o, ok := optCache[f]; ok {
+		return o
+	}
+	var o hdf5.DatasetOption
+	switch {
+	case len(f) > 5 && f[:5] == "gzip:":
+		lvl := 6
+		fmt.Sscanf(f[5:], "%d", &lvl)
+		o = hdf5.WithGZIPCompression(lvl)
+	case f == "shuffle":
+		o = hdf5.WithShuffle()
+	case f == "fletcher":
+		o = hdf5.WithFletcher32()
+	default:
+		return nil
+	}
+	optCache[f] = o
+	return o
+}
+
+var (
+	optMu    sync.Mutex
+	optCache = map[string]hdf5.DatasetOption{}
+)
 
 // ---- values -----------------------------------------------------------------------------------
 
